@@ -166,6 +166,23 @@ def decode_strings(rep, dname):
                            cex={'token_text': w}, replay=replay_decode(dname, w, want))
             else:
                 rep.undecided(oid, 'fst', r[1], function=fn, clause=clause)
+            if rname == 'backslash' and backslash and r[0] is False:
+                # the region fails as a whole for ONE listed reason (a doubled backslash is not collapsed).  So that this listed finding does not hide any other
+                # change of the region, the decoder is also compared with the denotation modulo exactly that deviation: everything else must still agree
+                Den2 = codecs.den_quoted(delim, doubling, backslash, keep_pairs=True)
+                D2 = D.intersect(Den2.domain())
+                r2 = equivalent(Dec.on_domain(D2), Den2.on_domain(D2))
+                oid2 = oid + '.modulo-pairs'
+                clause2 = f'forall w in L({tok}) & backslash: decode(w) == Den(w) with doubled backslashes left as they are (the listed deviation); every other escape is decoded as the spec says'
+                if r2[0] is True:
+                    rep.proved(oid2, 'fst', f'equivalent on the whole region modulo the listed deviation (domain DFA {len(D2.trans)} states)', function=fn, clause=clause2)
+                elif r2[0] is False:
+                    w2 = r2[1]
+                    want2 = next(iter(Den2.apply(w2)))
+                    rep.failed(oid2, 'fst', f'shortest witness {w2!r}: decoded {sorted(Dec.apply(w2))}, expected {want2!r} even with doubled backslashes kept ({r2[2]})', function=fn, clause=clause2,
+                               cex={'token_text': w2}, replay=replay_decode(dname, w2, want2))
+                else:
+                    rep.undecided(oid2, 'fst', r2[1], function=fn, clause=clause2)
 
 
 def fallback_decode(rep, dname, tok, delim, other, par, fn, why):
